@@ -18,8 +18,10 @@ from ..lattice import ORIGIN0
 from .. import tlc
 from .die_common import metric_regs, die_size, run_die_case, random_description
 
-MC = {"quick": ["Die_mc_quick"], "thorough": ["Die_mc_quick", "Die_mc_in3", "Die_mc_sliver"]}
-GEN = {"quick": ["Die_gen_a"], "thorough": ["Die_gen_a", "Die_gen_in3", "Die_gen_sliver"]}
+MC = {"quick": ["Die_mc_quick"], "thorough": ["Die_mc_quick", "Die_mc_in3", "Die_mc_sliver", "Die_mc_thin"]}
+# Die_gen_thin: regions overlapping by a strip 1/30000 of the die wide -- far above the coordinate tolerance but, under the
+# small-magnitude embedding, below the area tolerance of Rectangle.overlap(); such descriptions must still be rejected
+GEN = {"quick": ["Die_gen_a", "Die_gen_thin"], "thorough": ["Die_gen_a", "Die_gen_in3", "Die_gen_sliver", "Die_gen_thin"]}
 
 
 def to_case(c, embs=ORIGIN0, ops=()):
@@ -89,11 +91,15 @@ def decide(ctx: Ctx, cases: list[dict], spec_events=None):
     return traces, verdicts
 
 
+def thin(c) -> bool:
+    return c["xs"][1] >= 10000
+
+
 def select(ctx: Ctx, cases: list[dict], n_invalid: int) -> list[dict]:
-    """quick tier: every valid description, plus a seeded sample of the invalid ones"""
+    """quick tier: every valid description and every thin-overlap description, plus a seeded sample of the other invalid ones"""
     rng = random.Random(ctx.seed * 7919 + 1)
-    valid = [c for c in cases if c["valid"] == 1]
-    invalid = [c for c in cases if c["valid"] == 0]
+    valid = [c for c in cases if c["valid"] == 1 or thin(c)]
+    invalid = [c for c in cases if c["valid"] == 0 and not thin(c)]
     rng.shuffle(invalid)
     return valid + invalid[:n_invalid]
 
